@@ -157,7 +157,7 @@ class Ctx:
                 util.STR_HISTORY = case['_sh']
             else:
                 self._sh_n = getattr(self, '_sh_n', 0) + 1
-                util.STR_HISTORY = (self._sh_n // 4) % 5 if self._sh_n % 4 == 0 else 0
+                util.STR_HISTORY = (self._sh_n // 4) % 7 if self._sh_n % 4 == 0 else 0
                 if util.STR_HISTORY:
                     case['_sh'] = util.STR_HISTORY
         before = util.get_options()
@@ -170,7 +170,7 @@ class Ctx:
         finally:
             util.AMBIENT = {}
             if util.STR_HISTORY:
-                self.ops['str-operand-text-used-before:' + ('', 'by-a-mutable-object-then-changed', 'two-tokens', 'three-tokens', 'line-breaks-inside')[util.STR_HISTORY]] += 1
+                self.ops['str-operand-text-used-before:' + ('', 'by-a-mutable-object-then-changed', 'two-tokens', 'three-tokens', 'line-breaks-inside', 'plain-group-inside', 'nested-groups')[util.STR_HISTORY]] += 1
             util.STR_HISTORY = 0
             if util.LSB0_ON:
                 self.ops['lsb0-switched-on-with:' + ('True', '1', '2', "'yes'", 'numpy.bool_(True)')[util.LSB0_ON]] += 1
